@@ -201,7 +201,7 @@ package keeper
 //@   modifies trGas[layer(ctx)]
 //@   hidden modifies kvHas[kvId(layer(ctx), payload(k.transientKey))], kvVal[kvId(layer(ctx), payload(k.transientKey))]
 //@   ensures[C05.tr_gas_written,C13.tr_gas_written] trGas[layer(ctx)] == old(trGas[layer(ctx)])[max(1, trCount[layer(ctx)]) - 1 := gas]
-//@   ensures[C13.tr_store_wf] trStoreWf(layer(ctx))
+//@   ensures[C05.tr_store_wf,C13.tr_store_wf] trStoreWf(layer(ctx))
 //@   panics[C05.tr_gas_written_never_panics] never
 //@ func (k Keeper) SetLogCountForCurrentTxTransient(ctx sdk.Context, count uint64)
 //@   deterministic[C01.no_node_local_source]
@@ -376,7 +376,7 @@ package keeper
 //@   modifies trFlagNonce[layer(ctx)]
 //@   hidden modifies kvHas[kvId(layer(ctx), payload(k.transientKey))], kvVal[kvId(layer(ctx), payload(k.transientKey))]
 //@   ensures[C06.tr_flag_nonce_written] trFlagNonce[layer(ctx)] == increased
-//@   ensures[C13.tr_store_wf] trStoreWf(layer(ctx))
+//@   ensures[C06.tr_store_wf] trStoreWf(layer(ctx))
 //@   panics[C06.tr_flag_nonce_written_never_panics] never
 //@ func (k Keeper) SetFlagSenderPaidTxFeeInAnteHandle(ctx sdk.Context, paid bool)
 //@   deterministic[C01.no_node_local_source]
@@ -385,8 +385,19 @@ package keeper
 //@   modifies trFlagPaid[layer(ctx)]
 //@   hidden modifies kvHas[kvId(layer(ctx), payload(k.transientKey))], kvVal[kvId(layer(ctx), payload(k.transientKey))]
 //@   ensures[C04.tr_flag_paid_written,C05.tr_flag_paid_written] trFlagPaid[layer(ctx)] == paid
-//@   ensures[C13.tr_store_wf] trStoreWf(layer(ctx))
+//@   ensures[C04.tr_store_wf] trStoreWf(layer(ctx))
 //@   panics[C04.tr_flag_paid_written_never_panics] never
+// (helper tr) the third flag setter (no caller outside tests): with it EVERY function that touches the module's transient store
+// is a verified accessor.
+//@ func (k Keeper) SetFlagEnableNoBaseFee(ctx sdk.Context, enable bool)
+//@   deterministic[C01.no_node_local_source]
+//@   trusted requires trWriter(payload(k.transientKey))
+//@   rederives
+//@   modifies trFlagNoBaseFee[layer(ctx)]
+//@   hidden modifies kvHas[kvId(layer(ctx), payload(k.transientKey))], kvVal[kvId(layer(ctx), payload(k.transientKey))]
+//@   ensures[C05.tr_flag_nobasefee_written] trFlagNoBaseFee[layer(ctx)] == enable
+//@   ensures[C05.tr_store_wf] trStoreWf(layer(ctx))
+//@   panics[C05.tr_flag_nobasefee_written_never_panics] never
 
 // the fee market keeper as x/evm sees it (implemented by x/feemarket/keeper.Keeper.GetBaseFee = GetParams(ctx).BaseFee)
 //@ func (fk evmtypes.FeeMarketKeeper) GetBaseFee(ctx sdk.Context) sdkmath.Int
